@@ -14,6 +14,9 @@ func (g *G) templateStmt() *lang.Node {
 	g.nameN++
 	id := g.nameN
 	n := func(s string) string { return fmt.Sprintf("%s%d", s, id) }
+	if g.o.StringHeavy && g.chance(700, "tplStr") {
+		return g.stringTemplate(id, n)
+	}
 	switch g.weighted("template", 6, 6, 5, 5, 4, 3, 4, 3) {
 	case 0:
 		// counter factory: closure updating a captured variable
@@ -191,3 +194,86 @@ func (g *G) templateStmt() *lang.Node {
 // seq groups several statements; block() splices them into the enclosing
 // statement list.
 func seq(xs ...*lang.Node) *lang.Node { return &lang.Node{K: "seq", Kids: xs} }
+
+// stringTemplate emits shapes that grow strings / bytes across the
+// configured maximum: += in loops, string(x) of containers, format with
+// width, bytes(n), keys made from non-string indexes.
+func (g *G) stringTemplate(id int, n func(string) string) *lang.Node {
+	switch g.weighted("strTpl", 6, 4, 4, 3, 3, 3, 3) {
+	case 0:
+		g.feat("tpl:string-growth-loop")
+		s, i := n("s"), n("i")
+		piece := g.strLit()
+		rounds := int64(1 + g.draw(40, "strRounds"))
+		g.declare(&vinfo{name: s, t: TStr})
+		return seq(lang.Define(s, g.strLit()),
+			lang.For(lang.Define(i, lang.Int(0)), lang.Binary("<", lang.Ident(i), lang.Int(rounds)), lang.IncDec("++", lang.Ident(i)),
+				lang.Block(lang.Assign("+=", lang.Ident(s), piece))))
+	case 1:
+		g.feat("tpl:string-doubling")
+		s, i := n("d"), n("i")
+		rounds := int64(1 + g.draw(8, "dblRounds"))
+		g.declare(&vinfo{name: s, t: TStr})
+		return seq(lang.Define(s, lang.Str([]string{"ab", "x", "héé", "0123"}[g.draw(4, "dblSeed")])),
+			lang.For(lang.Define(i, lang.Int(0)), lang.Binary("<", lang.Ident(i), lang.Int(rounds)), lang.IncDec("++", lang.Ident(i)),
+				lang.Block(lang.Assign("=", lang.Ident(s), lang.Binary("+", lang.Ident(s), lang.Ident(s))))))
+	case 2:
+		g.feat("tpl:bytes-growth")
+		b, i := n("b"), n("i")
+		rounds := int64(1 + g.draw(30, "byRounds"))
+		if !g.builtinFree("bytes") {
+			return g.defineStmt()
+		}
+		g.declare(&vinfo{name: b, t: TBytes})
+		return seq(lang.Define(b, lang.Call(lang.Ident("bytes"), g.strLit())),
+			lang.For(lang.Define(i, lang.Int(0)), lang.Binary("<", lang.Ident(i), lang.Int(rounds)), lang.IncDec("++", lang.Ident(i)),
+				lang.Block(lang.Assign("+=", lang.Ident(b), lang.Call(lang.Ident("bytes"), lang.Str("xyz"))))))
+	case 3:
+		g.feat("tpl:string-of-container")
+		a, s := n("c"), n("cs")
+		if !g.builtinFree("string") || !g.builtinFree("range") {
+			return g.defineStmt()
+		}
+		k := int64(g.draw(40, "contN"))
+		g.declare(&vinfo{name: a, t: TArr, elem: TInt})
+		g.declare(&vinfo{name: s, t: TStr})
+		return seq(lang.Define(a, lang.Call(lang.Ident("range"), lang.Int(0), lang.Int(k))),
+			lang.Define(s, lang.Call(lang.Ident("string"), lang.Ident(a))))
+	case 4:
+		g.feat("tpl:format-width")
+		s := n("fw")
+		if g.o.NoFormat || !g.builtinFree("format") {
+			return g.defineStmt()
+		}
+		w := []int{1, 8, 16, 30, 33, 60, 65, 99, 101, 200, 1001}[g.draw(11, "fmtW")]
+		g.declare(&vinfo{name: s, t: TStr})
+		f := []string{"%%%dd", "%%-%ds|", "%%0%dd"}[g.draw(3, "fmtWF")]
+		arg := lang.Int(int64(g.draw(100, "fmtWA")))
+		var a *lang.Node = arg
+		if f == "%%-%ds|" {
+			a = lang.Str("ab")
+		}
+		return lang.Define(s, lang.Call(lang.Ident("format"), lang.Str(fmtSprintf(f, w)), a))
+	case 5:
+		g.feat("tpl:bytes-n")
+		b := n("bn")
+		if !g.builtinFree("bytes") {
+			return g.defineStmt()
+		}
+		k := []int64{0, 1, 31, 32, 33, 63, 64, 65, 99, 100, 101, 999, 1000, 1001, 5000}[g.draw(15, "bytesNN")]
+		g.declare(&vinfo{name: b, t: TBytes})
+		return lang.Define(b, lang.Call(lang.Ident("bytes"), lang.Int(k)))
+	default:
+		g.feat("tpl:non-string-map-key")
+		m := n("km")
+		if !g.builtinFree("range") {
+			return g.defineStmt()
+		}
+		k := int64(1 + g.draw(40, "keyN"))
+		g.declare(&vinfo{name: m, t: TMap})
+		return seq(lang.Define(m, lang.Map(nil, nil)),
+			lang.Assign("=", lang.Index(lang.Ident(m), lang.Call(lang.Ident("range"), lang.Int(0), lang.Int(k))), lang.Int(1)))
+	}
+}
+
+func fmtSprintf(f string, w int) string { return fmt.Sprintf(f, w) }
